@@ -74,7 +74,12 @@ func (f *Filer) RecoverTail(info types.SegmentInfo) (types.SegmentWriter, error)
 		return nil, err
 	}
 
-	return recoverFile(info, wf, &f.bufPool)
+	w, err := recoverFile(info, wf, &f.bufPool)
+	if err != nil {
+		wf.Close()
+		return nil, err
+	}
+	return w, nil
 }
 
 // Open an already sealed segment for reading. Open may validate the file's
